@@ -185,6 +185,10 @@ def trilist(tris):
 # ---------------------------------------------------------------------------------------------
 # the implementation
 # ---------------------------------------------------------------------------------------------
+class ImplError(Exception):
+    """the implementation raised on a valid input; args[0] is the finding"""
+
+
 class Impl:
     def __init__(self):
         from cherab.tools.inversions.voxels import AxisymmetricVoxel, ToroidalVoxelGrid
@@ -196,11 +200,17 @@ class Impl:
     def geom(self, pts, primitive_type="csg"):
         self.crumb({"call": "AxisymmetricVoxel(polygon, primitive_type): area, centroid, volume", "polygon": pts,
                     "primitive_type": primitive_type})
-        v = self.Voxel(pts, primitive_type=primitive_type)
-        stored = [(float(p.x), float(p.y)) for p in v.vertices]
-        c = v.cross_section_centroid
-        return v, {"stored": stored, "area": float(v.cross_sectional_area), "cx": float(c.x), "cy": float(c.y),
-                   "volume": float(v.volume)}
+        try:
+            v = self.Voxel(pts, primitive_type=primitive_type)
+            stored = [(float(p.x), float(p.y)) for p in v.vertices]
+            c = v.cross_section_centroid
+            return v, {"stored": stored, "area": float(v.cross_sectional_area), "cx": float(c.x), "cy": float(c.y),
+                       "volume": float(v.volume)}
+        except (ZeroDivisionError, ValueError, TypeError, RuntimeError, IndexError) as e:
+            # an exception on a simple polygon of non-zero area is a finding, reported by the caller
+            raise ImplError({"claim": "a voxel built from a simple polygon reports its area, centroid and volume "
+                                      "(the implementation raised %s)" % type(e).__name__,
+                             "polygon": pts, "primitive_type": primitive_type, "exception": repr(e)})
 
     def err_code(self, pts):
         try:
@@ -269,7 +279,10 @@ def search_geometry(impl, pts, all_variants):
     vol = 2 * frac(PI) * cx * area
     outs = []
     for var in (variants(pts) if all_variants else [pts]):
-        _, g = impl.geom(var)
+        try:
+            _, g = impl.geom(var)
+        except ImplError as e:
+            return [e.args[0]]
         outs.append(g)
         for name, got, want, tol in (("area", g["area"], area, ta), ("centroid.x", g["cx"], cx, tx),
                                      ("centroid.y", g["cy"], cy, ty), ("volume", g["volume"], vol, tv)):
@@ -294,7 +307,10 @@ def search_sampling(impl, pts, rng, n_samples):
     hit counts match area fractions at 5 sigma; (iv) mean of linear functions = value at centroid at 5 sigma;
     (v) constants are reproduced"""
     fails = []
-    v, g = impl.geom(pts)
+    try:
+        v, g = impl.geom(pts)
+    except ImplError as e:
+        return [e.args[0]]
     stored = g["stored"]
     tris = impl.triangles(stored)
     areas = [abs(_orient(*[tuple(map(frac, stored[i])) for i in t])) / 2 for t in tris]
@@ -433,8 +449,14 @@ def run(ctx):
     dist = {"class": {}, "n_vertices": {}, "orientation_given": {"clockwise": 0, "anticlockwise": 0},
             "dyadic": 0, "full_double": 0, "touching_axis": 0, "concave": 0}
 
+    impl_errors = []
+
     def add_geom(cls, exact, pts, tag):
-        _, g = impl.geom(pts)
+        try:
+            _, g = impl.geom(pts)
+        except ImplError as e:
+            impl_errors.append(e.args[0])
+            return None
         cases.append("check_geom %s %s %s %s %s %s %s" % (ptlist(pts), ptlist(g["stored"]), qlit(PI), qlit(g["area"]),
                                                           qlit(g["cx"]), qlit(g["cy"]), qlit(g["volume"])))
         meta.append({"kind": "geometry", "class": cls, "tag": tag, "polygon": pts, "impl": g})
@@ -442,6 +464,8 @@ def run(ctx):
 
     for cls, exact, pts in polys:
         g = add_geom(cls, exact, pts, "base")
+        if g is None:
+            continue
         dist["class"][cls] = dist["class"].get(cls, 0) + 1
         dist["n_vertices"][len(pts)] = dist["n_vertices"].get(len(pts), 0) + 1
         dist["orientation_given"]["clockwise" if g["stored"] == pts else "anticlockwise"] += 1
@@ -457,7 +481,11 @@ def run(ctx):
             add_geom(cls, exact, var, "variant")
     # 'mesh' primitives report the same numbers
     for cls, exact, pts in polys[:6]:
-        _, g = impl.geom(pts, primitive_type="mesh")
+        try:
+            _, g = impl.geom(pts, primitive_type="mesh")
+        except ImplError as e:
+            impl_errors.append(e.args[0])
+            continue
         cases.append("check_geom %s %s %s %s %s %s %s" % (ptlist(pts), ptlist(g["stored"]), qlit(PI), qlit(g["area"]),
                                                           qlit(g["cx"]), qlit(g["cy"]), qlit(g["volume"])))
         meta.append({"kind": "geometry", "class": cls, "tag": "mesh", "polygon": pts, "impl": g})
@@ -478,7 +506,11 @@ def run(ctx):
     n_draws = 0
     for i in range(n_emis):
         cls, exact, pts = emis_pool[i % len(emis_pool)]
-        v, g = impl.geom(pts)
+        try:
+            v, g = impl.geom(pts)
+        except ImplError as e:
+            impl_errors.append(e.args[0])
+            continue
         tris = impl.triangles(g["stored"])
         tri_hist[len(tris)] = tri_hist.get(len(tris), 0) + 1
         n = rng.choice([1, 2, 5, 10, 10])
@@ -538,7 +570,7 @@ def run(ctx):
     ctx.log("correspondence: %s, %d disagree, %d ambiguous" % (kinds, len(diff_cases), len(ambiguous)))
 
     # ---- failing-input search on the implementation -----------------------------------------------------------
-    search_fails = list(grid_fails)
+    search_fails = impl_errors[:3] + list(grid_fails)
     seeds = [meta[ci]["polygon"] for ci in diff_cases if "polygon" in meta[ci] and meta[ci]["kind"] != "error"]
     n_search_geom = 0
     allvar_set = {id(p[2]) for p in allvar}
@@ -607,5 +639,5 @@ def run(ctx):
                     "proved; the probabilistic reading (uniform u, uniform point in triangle, general f) is not formalised",
                     "raysect's triangulate2d and RNG are not modelled; their outputs are inputs of the model, checked per case"],
     })
-    ctx.coverage["samples"] = [meta[0], next(m for m in meta if m["kind"] == "emissivity")]
+    ctx.coverage["samples"] = [meta[0]] + [m for m in meta if m["kind"] == "emissivity"][:1]
     ctx.grep_gate()
